@@ -69,13 +69,41 @@ thread_local! {
     static DEFER: RefCell<Option<Box<dyn FnMut() -> bool>>> = const { RefCell::new(None) };
 }
 pub fn set_defer_decider(f: Option<Box<dyn FnMut() -> bool>>) { DEFER.with(|c| *c.borrow_mut() = f); }
-pub struct Deferrable<F>(Pin<Box<F>>);
-pub fn wrap_task<F: Future>(f: F) -> Deferrable<F> { Deferrable(Box::pin(f)) }
+thread_local! {
+    /// spawn site of every internally spawned task that has not finished yet (leak diagnostics)
+    static LIVE_TASKS: RefCell<std::collections::BTreeMap<u64, &'static std::panic::Location<'static>>> = const { RefCell::new(std::collections::BTreeMap::new()) };
+    static NEXT_TASK_ID: Cell<u64> = const { Cell::new(0) };
+}
+/// `file:line` of the spawn site of every wrapped task still alive on this thread.
+pub fn live_tasks() -> Vec<String> {
+    LIVE_TASKS.with(|m| m.borrow().values().map(|l| format!("{}:{}", l.file(), l.line())).collect())
+}
+pub struct Deferrable<F>(Pin<Box<F>>, u64);
+#[track_caller]
+pub fn wrap_task<F: Future>(f: F) -> Deferrable<F> {
+    let loc = std::panic::Location::caller();
+    let id = NEXT_TASK_ID.with(|c| {
+        let v = c.get();
+        c.set(v + 1);
+        v
+    });
+    LIVE_TASKS.with(|m| m.borrow_mut().insert(id, loc));
+    Deferrable(Box::pin(f), id)
+}
+impl<F> Drop for Deferrable<F> {
+    fn drop(&mut self) {
+        let id = self.1;
+        let _ = LIVE_TASKS.try_with(|m| m.borrow_mut().remove(&id));
+    }
+}
 impl<F: Future> Future for Deferrable<F> {
     type Output = F::Output;
     fn poll(mut self: Pin<&mut Self>, cx: &mut Context<'_>) -> Poll<F::Output> {
         let defer = DEFER.with(|c| c.borrow_mut().as_mut().map(|f| f()).unwrap_or(false));
-        if defer { cx.waker().wake_by_ref(); return Poll::Pending; }
+        if defer {
+            cx.waker().wake_by_ref();
+            return Poll::Pending;
+        }
         self.0.as_mut().poll(cx)
     }
 }
